@@ -125,6 +125,26 @@ def _expect(kind, off):
     raise ValueError(kind)
 
 
+PREFIX_BUDGET = 160  # sum of prefix lengths per harness
+
+
+def prefix_chunks(name):
+    """[(lo, hi)] half-open ranges of prefix lengths covering 0..wire, each with sum(lengths) <= budget"""
+    w = T[name]["wire"]
+    out, lo, acc = [], 0, 0
+    for n in range(w):
+        if acc + n > PREFIX_BUDGET and n > lo:
+            out.append((lo, n))
+            lo, acc = n, 0
+        acc += n
+    out.append((lo, w))
+    return out
+
+
+def prefix_harnesses(name, prefix="wire"):
+    return ["%s_prefix_%s_%d" % (prefix, name, k) for k in range(len(prefix_chunks(name)))]
+
+
 def kani_harness(name, prefix):
     s = T[name]
     w = s["wire"]
@@ -155,19 +175,21 @@ def kani_harness(name, prefix):
     out.append("}\n")
     # totality on every strict prefix: Err, never a panic.  The prefix length is concrete per loop iteration
     # (a constant-trip-count loop, fully unwound with unwinding assertions on), because a *symbolic* slice
-    # length sends CBMC into a 10-minute timeout while a concrete one takes 2 s; all W lengths are covered.
-    out.append("/// %s: every strict prefix (each length 0..%d, all byte values) is an error, never a panic" % (name, w - 1))
-    out.append("#[kani::proof]\n#[kani::unwind(%d)]\nfn %s_prefix_%s() {" % (w + 1, prefix, name))
-    out.append("    let bytes: [u8; %d] = kani::any();" % w)
-    out.append("    let mut n: usize = 0;")
-    out.append("    while n < %d {" % w)
-    out.append("        let mut r: &[u8] = &bytes[..n];")
-    out.append("        let v: Result<%s, _> = %s;" % (s["path"], decode))
-    out.append("        assert!(v.is_err());")
-    out.append("        core::mem::forget(v); // the error value's drop glue (Box<dyn Error> recursion) is not under test")
-    out.append("        n += 1;")
-    out.append("    }")
-    out.append("}\n")
+    # length sends CBMC into a 10-minute timeout while a concrete one takes seconds; all W lengths are covered,
+    # split over several harnesses so that each stays within the solver budget.
+    for k, (lo, hi) in enumerate(prefix_chunks(name)):
+        out.append("/// %s: every strict prefix of length %d..%d (all byte values) is an error, never a panic" % (name, lo, hi - 1))
+        out.append("#[kani::proof]\n#[kani::unwind(%d)]\nfn %s_prefix_%s_%d() {" % (hi - lo + 2, prefix, name, k))
+        out.append("    let bytes: [u8; %d] = kani::any();" % w)
+        out.append("    let mut n: usize = %d;" % lo)
+        out.append("    while n < %d {" % hi)
+        out.append("        let mut r: &[u8] = &bytes[..n];")
+        out.append("        let v: Result<%s, _> = %s;" % (s["path"], decode))
+        out.append("        assert!(v.is_err());")
+        out.append("        core::mem::forget(v); // the error value's drop glue (Box<dyn Error> recursion) is not under test")
+        out.append("        n += 1;")
+        out.append("    }")
+        out.append("}\n")
     return "\n".join(out)
 
 
